@@ -8,7 +8,7 @@ from checks import cache_common
 MANIFEST = dict(
     technique='TLA+ implementation model of the cache (buffer, four journals, multi-order Commit with fault positions) with a ghost ideal tree and named deviation triggers, checked by TLC; every model transition and simulated deep behaviours replayed on the real Cache over a fault-injecting remote',
     text='TLC proves on all 121 initial remotes over {a,b} x depth 2, <=2 (thorough: <=3, and <=4 without faults) cache operations, <=2 Commits and every position of a failing remote call that outside the named deviation triggers the implementation model equals direct application (CommitExact, retry convergence, fault reported, remote untouched before Commit). Every transition is then replayed on the real cache comparing remote, buffer, journals and results; inside a trigger region the real behaviour must equal the ideal or the documented deviation.',
-    note='Open findings (known_findings.json): D_RemoveRemote, D_OrderLost, D_AcceptsRejected, D_RejectsAccepted, D_FailedJournaled; directory copies (D_DirCopy, D_SplitCopy) are outside the modelled operation set and shown by fixed witnesses. Faults are injected at remote-call granularity.')
+    note='Open findings (known_findings.json): D_RemoveRemote, D_OrderLost, D_AcceptsRejected, D_RejectsAccepted, D_FailedJournaled, D_DirCopy, D_SplitCopy (directory copies are part of the modelled operation set for every conflict-free destination). Faults are injected at remote-call granularity.')
 
 
 def run(ctx):
